@@ -230,27 +230,23 @@ def run(ctx):
     ctx.rule("C05.R4", "is_avro returns MAGIC == read(len(MAGIC)); the file it opened is closed on all exits", floor=2)
     f = p.func("_read_py:is_avro")
     cfg = cfg_of(f)
-    rets = [n for n in walk_local(f.node) if isinstance(n, ast.Return)]
-    ok = False
-    for r in rets:
-        v = r.value
-        if isinstance(v, ast.Compare) and len(v.ops) == 1 and isinstance(v.ops[0], ast.Eq):
-            sides = [v.left, v.comparators[0]]
-            names = [norm(x) for x in sides]
-            if "MAGIC" in names:
-                other = sides[1 - names.index("MAGIC")]
-                src = other
-                if isinstance(other, ast.Name):
-                    srcs = [n.value for n in walk_local(f.node) if isinstance(n, ast.Assign) and any(isinstance(t, ast.Name) and t.id == other.id for t in n.targets)]
-                    src = srcs[0] if len(srcs) == 1 else None
-                if isinstance(src, ast.Call) and isinstance(src.func, ast.Attribute) and src.func.attr == "read" and len(src.args) == 1 and norm(src.args[0]) in ("len(MAGIC)", "4") and p.try_fold(f.mod, src.args[0]) == len(spec.MAGIC):
-                    ok = True
-    ctx.check("C05.R4", "is_avro: result is MAGIC == stream.read(len(MAGIC))", ok and len(rets) == 1, f.where(), "is_avro: return value", "is_avro must answer by comparing exactly the first len(MAGIC) bytes with MAGIC")
+    from sa.pathsum import summaries
+    import re as _re
+
+    rets = [s_ for s_ in summaries(cfg) if s_.kind == "return"]
+    pat = _re.compile(r"(MAGIC == (?P<a>.+)\.read\((?P<n1>len\(MAGIC\)|4)\))|((?P<b>.+)\.read\((?P<n2>len\(MAGIC\)|4)\) == MAGIC)")
+    ok = bool(rets) and all(pat.fullmatch(s_.text) is not None for s_ in rets) and len(spec.MAGIC) == 4
+    ctx.check("C05.R4", "is_avro: result is MAGIC == stream.read(len(MAGIC))", ok, f.where(), f"is_avro: returns {sorted({s_.text for s_ in rets})}", "is_avro must answer by comparing exactly the first len(MAGIC) bytes with MAGIC")
     opens = [n for n in walk_local(f.node) if isinstance(n, ast.Call) and isinstance(n.func, ast.Name) and n.func.id == "open"]
     closes = [cfg.node_of(n) for n in walk_local(f.node) if isinstance(n, ast.Call) and isinstance(n.func, ast.Attribute) and n.func.attr == "close"]
     # all CFG copies of the close statement (finally bodies are duplicated per continuation)
     closes = [n for n in cfg.nodes if n.ast is not None and any(isinstance(c, ast.Call) and isinstance(c.func, ast.Attribute) and c.func.attr == "close" for c in ast.walk(n.ast))]
+    pm_ = a.parents(f.mod)
     for o in opens:
+        managed = pm_.get(id(o))
+        if isinstance(managed, ast.withitem) and managed.context_expr is o:
+            ctx.holds("C05.R4", "is_avro: file opened here is closed on every exit (normal and exceptional)", f.where(o), "context manager")
+            continue
         onode = cfg.node_of(o)
         after = [m for (m, lab) in onode.succ if lab != "exc"]
         # "we opened it" flags: `flag = True` set on the branch that opened the file and never
@@ -288,22 +284,29 @@ def run(ctx):
     binit = p.cls("_read_py:Block").methods["__init__"]
     b = bind_args(binit, blk[0])
     off_e, size_e = b.get("offset"), b.get("size")
-    if not (isinstance(off_e, ast.Name) and isinstance(size_e, ast.Name)):
-        ctx.unrecognised("C05.R5", f.qualname, f.where(blk[0]), "Block offset/size arguments are not local variables")
+    if not isinstance(off_e, ast.Name) or size_e is None:
+        ctx.unrecognised("C05.R5", f.qualname, f.where(blk[0]), "Block offset argument is not a local variable")
         return
-    off_as, size_as = assigns.get(off_e.id, []), assigns.get(size_e.id, [])
+    off_as = assigns.get(off_e.id, [])
+    # the size expression: the argument itself or the single assignment of the local passed
+    if isinstance(size_e, ast.Name):
+        size_as = assigns.get(size_e.id, [])
+        size_expr = size_as[0].value if len(size_as) == 1 else None
+    else:
+        size_expr = size_e
     count_reads = [n for n in walk_local(f.node) if isinstance(n, ast.Call) and isinstance(n.func, ast.Attribute) and n.func.attr == "read_long"]
     syncs = [n for n in walk_local(f.node) if isinstance(n, ast.Call) and (p.resolve_func(f.mod, n.func) if isinstance(n.func, (ast.Name, ast.Attribute)) else None) is p.func("_read_py:skip_sync")]
-    if len(off_as) != 1 or len(size_as) != 1 or len(count_reads) != 1 or len(syncs) != 1:
-        ctx.unrecognised("C05.R5", f.qualname, f.where(), "expected one offset assignment, one size assignment, one count read and one sync check")
+    if len(off_as) != 1 or size_expr is None or len(count_reads) != 1 or len(syncs) != 1:
+        ctx.unrecognised("C05.R5", f.qualname, f.where(), "expected one offset assignment, one size expression, one count read and one sync check")
         return
     tell = norm(off_as[0].value)
     ok_off = tell.endswith(".tell()") and cfg.dominates(cfg.node_of(off_as[0]), cfg.node_of(count_reads[0])) and cfg.node_of(off_as[0]) in cfg.reachable_from(cfg.node_of(blk[0]))
     ctx.check("C05.R5", "offset = stream position taken before the block count is read, in every iteration", ok_off, f.where(off_as[0]), f"{f.qualname}: {norm(off_as[0])}", "the block offset must be recorded before the count varint of that block is read (inside the loop)")
-    ok_size = norm(size_as[0].value) == f"{tell} - {off_e.id}" and cfg.dominates(cfg.node_of(syncs[0]), cfg.node_of(size_as[0])) and cfg.dominates(cfg.node_of(size_as[0]), cfg.node_of(blk[0]))
-    ctx.check("C05.R5", "size = same tell() - offset, computed after the sync marker was checked", ok_size, f.where(size_as[0]), f"{f.qualname}: {norm(size_as[0])}", "the block size must span count, payload and sync marker: computed from the same stream's tell() after skip_sync")
+    sn = cfg.node_of(size_expr)
+    ok_size = norm(size_expr) == f"{tell} - {off_e.id}" and cfg.dominates(cfg.node_of(syncs[0]), sn) and cfg.node_of(syncs[0]) is not sn and (sn is cfg.node_of(blk[0]) or cfg.dominates(sn, cfg.node_of(blk[0])))
+    ctx.check("C05.R5", "size = same tell() - offset, computed after the sync marker was checked", ok_size, f.where(size_expr), f"{f.qualname}: size = {norm(size_expr)}", "the block size must span count, payload and sync marker: computed from the same stream's tell() after skip_sync")
     nrec = b.get("num_records")
-    ok_n = isinstance(nrec, ast.Name) and any(norm(n.value) == norm(count_reads[0]) for n in assigns.get(nrec.id, []))
+    ok_n = (isinstance(nrec, ast.Name) and any(norm(n.value) == norm(count_reads[0]) for n in assigns.get(nrec.id, []))) or (nrec is not None and nrec is count_reads[0])
     ctx.check("C05.R5", "Block.num_records is the count read from the block header", ok_n, f.where(blk[0]), f"{f.qualname}: num_records={norm(nrec) if nrec is not None else '?'}", "the record count reported for a block is not the count varint read for it")
 
     # ---- shared ----
